@@ -127,16 +127,25 @@ def line_seek(ctx):
         _rec(d, "skip-from-line-start", re.match(r"^Result::unwrap\(<T as TryInto<U>>::try_into\(uninit\(\d+\)\)\)$", arg) is not None and sk[0][1][0] == "Iterator::enumerate(a1.search)", "the newline search must start at the previous line start itself (skip(nl)), over search.iter().enumerate(); found skip(%s, %s)" % (sk[0][1][0][:40], arg[:80]), loc)
         fd = [c for c in cs if c[0] == "Iterator::find"]
         _rec(d, "find-forward", len(fd) == 1 and "rev" not in " ".join(x[0] for x in cs), "the newline search must run forward", loc)
-        # new nl = index + 1 ; exits
+        # new nl = index + 1 ; exits.  (`find(..).map(..).unwrap_or(-1) + 1` reads as a match on the result of find)
+        fv = [g for g in gs if g.startswith("variant(Iterator::find(")]
+        if not fv:
+            _rec(d, "find-result-tested", False, "the result of the newline search is not examined", loc)
+            continue
+        if fv[0].endswith("=None"):
+            _rec(d, "no-newline", r == "false" and not [g for g in gs if g.lstrip("!").startswith("match_at(")], "when no further newline exists the search must end with false", loc)
+            continue
+        FIND = fv[0][len("variant("):-len(")=Some")]
         NL = None
         for g in gs:
-            m = re.match(r"^!?lt\((add\(.*\)), .*\)$", g)
+            m = re.match(r"^!?lt\((add\(.*\)), Result::unwrap\(<T as TryInto<U>>::try_into\(len\(a1\.search\)\)\)\)$", g)
             if m and "Iterator::find(" in m.group(1):
                 NL = m.group(1)
         if NL is None:
             _rec(d, "bounds-test", False, "the new line start is not compared with the input length", loc)
             continue
-        _rec(d, "next-line-start", NL.startswith("add(1, Option::unwrap_or(Option::map(Iterator::find(") or NL.startswith("add(Option::unwrap_or(Option::map(Iterator::find("), "the next line start must be (index of the newline) + 1; found %s" % NL[:80], loc)
+        IDX = "Result::unwrap(<T as TryInto<U>>::try_into(%s as Some.0.0))" % FIND
+        _rec(d, "next-line-start", NL in ("add(1, %s)" % IDX, "add(%s, 1)" % IDX), "the next line start must be (index of the newline) + 1; found %s" % NL[:80], loc)
         inside = "lt(%s, Result::unwrap(<T as TryInto<U>>::try_into(len(a1.search))))" % NL
         ma = [g for g in gs if g.lstrip("!").startswith("match_at(")]
         if ("!" + inside) in gs:
